@@ -19,6 +19,7 @@ import (
 )
 
 const sigEmptyFieldKey = "empty-field-key-after-tab-or-nul"
+const sigTokenMismatch = "field-tokenization-mismatch-escaped-backslash"
 
 type j12 struct {
 	Body    []byte `json:"body"`
@@ -118,6 +119,9 @@ func run12(w *vh.W, c *j12) {
 	sig := ""
 	if bytes.Contains(c.Body, []byte("\t=")) || bytes.Contains(c.Body, []byte("\x00=")) {
 		sig = sigEmptyFieldKey
+	}
+	if bytes.IndexByte(c.Body, '\\') >= 0 && bytes.IndexByte(c.Body, '"') >= 0 {
+		sig = sigTokenMismatch // scanFields and walkFields/FieldIterator can tokenize differently only with a backslash and a quote
 	}
 	nontrivial := len(c.Points) > 0 && len(c.Rej) > 0 || len(c.Points) > 1 || (len(c.Rej) > 0 && len(c.Body) > 8)
 	w.Add(term, c, nontrivial, sig)
@@ -412,6 +416,8 @@ func corpus12() []j12 {
 		mk("m f=1\nbad\n# comment\n\n  \nm,b=1,a=2 f=1 5\nm,a=1,a=2 f=1\nm f=1 x", "ns"),
 		mk("m \t=1", "ns"),           // known finding: empty field key
 		mk("m \x00=1,b=2 7", "ns"),   // known finding shape, second field named
+		mk("m a\\\\=\"x=t,b=\"", "ns"), // known finding: accepted, FieldIterator.StringValue()/Fields() panic
+		mk("m a\\\\=\"x=-i,b=1\" 5", "ns"),
 		mk("m f=\"a\nb\" 1\nm2 f=1", "ns"),
 		mk("m f=1\\\nx\nm f=2", "ns"), // backslash swallows the newline in scanLine
 		mk("m f=1\\\n", "ns"),
